@@ -89,16 +89,16 @@ impl<P: CompilationProfile> IsographDatabase<P> {
     pub fn get_current_working_directory(&self) -> (r: CurrentWorkingDirectory) ensures r == self.cwd() { unimplemented!() }
     #[verifier::external_body]
     pub fn insert_iso_literal(&mut self, relative_path: RelativePathToSourceFile, content: String)
-        ensures final(self).ops() == old(self).ops().push(DbOp::InsertFile(relative_path, content@)), final(self).cwd() == old(self).cwd(),
+        ensures final(self).ops() == old(self).ops().push(DbOp::InsertFile(relative_path, content@)), final(self).cwd() == old(self).cwd(), final(self).config() == old(self).config(), final(self).schema_id() == old(self).schema_id(),
     { unimplemented!() }
     #[verifier::external_body]
     pub fn remove_iso_literal(&mut self, relative_path: RelativePathToSourceFile) -> (r: Option<SourceId>)
-        ensures final(self).ops() == old(self).ops().push(DbOp::RemoveFile(relative_path)), final(self).cwd() == old(self).cwd(),
+        ensures final(self).ops() == old(self).ops().push(DbOp::RemoveFile(relative_path)), final(self).cwd() == old(self).cwd(), final(self).config() == old(self).config(), final(self).schema_id() == old(self).schema_id(),
             (r is Some) == old(self).tracked(relative_path),
     { unimplemented!() }
     #[verifier::external_body]
     pub fn remove_iso_literals_from_path(&mut self, relative_path: &str)
-        ensures final(self).ops() == old(self).ops().push(DbOp::RemoveFolder(relative_path@)), final(self).cwd() == old(self).cwd(),
+        ensures final(self).ops() == old(self).ops().push(DbOp::RemoveFolder(relative_path@)), final(self).cwd() == old(self).cwd(), final(self).config() == old(self).config(), final(self).schema_id() == old(self).schema_id(),
     { unimplemented!() }
 }
 /// read_files::read_file: (relative path, content) of one source file, or an error
@@ -142,7 +142,7 @@ pub open spec fn inserted(ops: Seq<DbOp>, files: Seq<(RelativePathToSourceFile, 
 //@sub "for \(relative_path, content\) in\s*read_files_in_folder\(folder, db\.get_current_working_directory\(\)\)\?\s*\{" => "let files_read = read_files_in_folder(folder, db.get_current_working_directory())?; let ghost files0 = files_read@; for (relative_path, content) in itf: files_read {" n=1
 //@contract
     ensures
-        final(db).cwd() == old(db).cwd(),
+        final(db).cwd() == old(db).cwd(), final(db).config() == old(db).config(), final(db).schema_id() == old(db).schema_id(),
         // every source file found below the folder is (re)tracked, in the order read; an
         // unreadable folder is reported and changes nothing
         match folder_read(*folder, old(db).cwd()) {
@@ -153,7 +153,7 @@ pub open spec fn inserted(ops: Seq<DbOp>, files: Seq<(RelativePathToSourceFile, 
         invariant
             itf.seq() == files0, same_files(files0, folder_read(*folder, old(db).cwd())->Ok_0),
             folder_read(*folder, old(db).cwd()) is Ok,
-            db.cwd() == old(db).cwd(),
+            db.cwd() == old(db).cwd(), db.config() == old(db).config(), db.schema_id() == old(db).schema_id(),
             db.ops() == inserted(old(db).ops(), folder_read(*folder, old(db).cwd())->Ok_0, itf.index@ as int),
 //@end
 
@@ -243,11 +243,14 @@ impl Path {
 impl AbsolutePathAndRelativePath {
     pub fn clone(&self) -> (r: Self) ensures r == *self { AbsolutePathAndRelativePath { absolute_path: self.absolute_path.clone(), relative_path: self.relative_path } }
 }
-pub struct CompilerConfig { pub schema: AbsolutePathAndRelativePath, pub schema_extensions: Vec<AbsolutePathAndRelativePath> }
+pub struct CompilerConfig { pub schema: AbsolutePathAndRelativePath, pub schema_extensions: Vec<AbsolutePathAndRelativePath>, pub project_root: PathBuf }
 /// `config.schema_extensions.iter().any(|x| x.absolute_path == *path)`
 pub open spec fn is_extension_path(c: CompilerConfig, p: Path) -> bool {
     exists|i: int| 0 <= i < c.schema_extensions@.len() && (#[trigger] c.schema_extensions@[i]).absolute_path == p
 }
+/// `config.schema_extensions.clone()`
+#[verifier::external_body]
+pub fn clone_extensions(v: &Vec<AbsolutePathAndRelativePath>) -> (r: Vec<AbsolutePathAndRelativePath>) ensures r@ == v@ { unimplemented!() }
 #[verifier::external_body]
 pub fn any_extension_has_path(c: &CompilerConfig, p: &Path) -> (r: bool) ensures r == is_extension_path(*c, *p) { unimplemented!() }
 #[verifier::external_body]
@@ -261,6 +264,9 @@ pub struct StandardSources { pub schema_source_id: SourceId, pub schema_extensio
 #[verifier::external_body]
 pub struct ExtensionMap { p: core::marker::PhantomData<u8> }
 impl ExtensionMap {
+    /// `BTreeMap::new()`
+    #[verifier::external_body]
+    pub fn new() -> (r: ExtensionMap) ensures r.log().len() == 0 { unimplemented!() }
     /// the inserts made through this reference, in order
     pub uninterp spec fn log(&self) -> Seq<(RelativePathToSourceFile, SourceId)>;
     #[verifier::external_body]
@@ -419,6 +425,89 @@ pub fn schema_not_found_diagnostic() -> LocationFreeDiagnostic { unimplemented!(
             SourceEventKind::Remove(path) => r is Ok
                 && final(db).ops() == old(db).ops().push(DbOp::RemoveExtension(rel_file(old(db).cwd(), path))),
         }, //@O C20.O-3_schema_extension_event_rereads_or_drops_the_extension
+//@end
+
+// =====================================================================================
+// The fresh start (initialize_sources): what a batch compile reads, in the same vocabulary
+// =====================================================================================
+/// every configured extension read so far succeeded
+pub open spec fn exts_readable(exts: Seq<AbsolutePathAndRelativePath>, k: int) -> bool {
+    forall|i: int| 0 <= i < k ==> schema_file_read((#[trigger] exts[i]).absolute_path) is Ok
+}
+/// ops extended by one SetSchema per extension, in configuration order
+pub open spec fn exts_set(ops: Seq<DbOp>, exts: Seq<AbsolutePathAndRelativePath>, k: int) -> Seq<DbOp>
+    decreases k
+{
+    if k <= 0 { ops } else { exts_set(ops, exts, k - 1).push(DbOp::SetSchema(exts[k - 1].relative_path, schema_file_read(exts[k - 1].absolute_path)->Ok_0)) }
+}
+/// the (path, id) pairs recorded for the extensions
+pub open spec fn exts_recorded(exts: Seq<AbsolutePathAndRelativePath>, k: int) -> Seq<(RelativePathToSourceFile, SourceId)>
+    decreases k
+{
+    if k <= 0 { Seq::empty() } else { exts_recorded(exts, k - 1).push((exts[k - 1].relative_path, SourceId::of_schema(exts[k - 1].relative_path))) }
+}
+
+//@fn rel=crates/isograph_compiler/src/source_files.rs name=read_schema_extensions vis=pub ret=r serves=C20
+//@rw R4
+//@hsub "BTreeMap<RelativePathToSourceFile, SourceId<SchemaSource>>" => "ExtensionMap"
+//@sub "db\.get_isograph_config\(\)\.schema_extensions\.clone\(\)" => "clone_extensions(&db.get_isograph_config().schema_extensions)" n=1
+//@sub "BTreeMap::new\(\)" => "ExtensionMap::new()" n=1
+//@sub "for schema_extension_path in config_schema_extensions\.iter\(\) \{" => "for schema_extension_path in ite: config_schema_extensions.iter() {" n=1
+//@contract
+    ensures
+        final(db).cwd() == old(db).cwd(), final(db).config() == old(db).config(), final(db).schema_id() == old(db).schema_id(),
+        // every configured extension is read, in order, and recorded under its relative path
+        exts_readable(old(db).config().schema_extensions@, old(db).config().schema_extensions@.len() as int) ==>
+            r is Ok
+            && final(db).ops() == exts_set(old(db).ops(), old(db).config().schema_extensions@, old(db).config().schema_extensions@.len() as int)
+            && r->Ok_0.log() == exts_recorded(old(db).config().schema_extensions@, old(db).config().schema_extensions@.len() as int), //@O C20.O-4_a_fresh_start_reads_every_configured_schema_extension
+        !exts_readable(old(db).config().schema_extensions@, old(db).config().schema_extensions@.len() as int) ==> r is Err,
+//@loop 1
+        invariant
+            db.cwd() == old(db).cwd(), db.config() == old(db).config(), db.schema_id() == old(db).schema_id(),
+            ite.seq().len() == config_schema_extensions@.len(),
+            forall|k: int| 0 <= k < ite.seq().len() ==> *(#[trigger] ite.seq()[k]) == config_schema_extensions@[k],
+            config_schema_extensions@ == old(db).config().schema_extensions@,
+            exts_readable(config_schema_extensions@, ite.index@ as int),
+            db.ops() == exts_set(old(db).ops(), config_schema_extensions@, ite.index@ as int),
+            schema_extensions.log() == exts_recorded(config_schema_extensions@, ite.index@ as int),
+//@end
+
+//@fn rel=crates/isograph_compiler/src/source_files.rs name=read_iso_literals_from_project_root vis=pub ret=r serves=C20
+//@rw R23
+//@sub "db\.get_isograph_config\(\)\.project_root\.clone\(\)" => "db.get_isograph_config().project_root.clone()" n=1
+//@contract
+    ensures
+        final(db).cwd() == old(db).cwd(), final(db).config() == old(db).config(), final(db).schema_id() == old(db).schema_id(),
+        match folder_read(old(db).config().project_root, old(db).cwd()) {
+            Ok(files) => r is Ok && final(db).ops() == inserted(old(db).ops(), files, files.len() as int),
+            Err(e) => r is Err && final(db).ops() == old(db).ops(),
+        }, //@O C20.O-4_a_fresh_start_reads_every_source_file_below_the_project_root
+//@end
+
+//@fn rel=crates/isograph_compiler/src/source_files.rs name=initialize_sources vis=pub ret=r serves=C20
+//@rw R4
+//@sub "\*db\.get_standard_sources_mut\(\)\.tracked\(\) =" => "*db.standard_sources_mut() =" n=1
+//@contract
+    ensures
+        final(db).cwd() == old(db).cwd(), final(db).config() == old(db).config(),
+        // the reference for C20: a fresh start reads the schema, every configured extension (and
+        // records it), then every source file below the project root - exactly what the event
+        // handlers above reproduce piecewise
+        ({
+            let c = old(db).config();
+            let n = c.schema_extensions@.len() as int;
+            schema_file_read(c.schema.absolute_path) is Ok && exts_readable(c.schema_extensions@, n)
+                && folder_read(c.project_root, old(db).cwd()) is Ok
+            ==> {
+                let o1 = old(db).ops().push(DbOp::SetSchema(c.schema.relative_path, schema_file_read(c.schema.absolute_path)->Ok_0));
+                let o2 = exts_set(o1, c.schema_extensions@, n);
+                let o3 = o2 + exts_recorded(c.schema_extensions@, n).map_values(|kv: (RelativePathToSourceFile, SourceId)| DbOp::RecordExtension(kv.0, kv.1));
+                let files = folder_read(c.project_root, old(db).cwd())->Ok_0;
+                r is Ok && final(db).ops() == inserted(o3, files, files.len() as int)
+                    && final(db).schema_id() == SourceId::of_schema(c.schema.relative_path)
+            }
+        }), //@O C20.O-4_a_fresh_start_reads_schema_extensions_and_sources_in_this_order
 //@end
 
 } // verus!
